@@ -1440,7 +1440,9 @@ fn gen_d(thorough: bool) -> Vec<DCase> {
 struct DEval { widths_done: u64, comparisons: u64, changes_with_width: bool, t99: String, fails: Vec<Fail>, outcomes: Vec<String>, discarded: Option<String>, reprint_differs: bool, warned: bool }
 
 /// The decompiler's AST itself (the same calls as `drive::decompile`, stopping before the formatter).
-fn decompile_ast(tool: Tool, bytes: &[u8], mapfile: &str) -> Result<ast::ScriptFile, String> {
+fn decompile_ast(tool: Tool, bytes: &[u8], mapfile: &str) -> Result<ast::ScriptFile, String> { decompile_ast_ex(tool, bytes, mapfile, false) }
+
+fn decompile_ast_ex(tool: Tool, bytes: &[u8], mapfile: &str, show_instr_offsets: bool) -> Result<ast::ScriptFile, String> {
     use truth::io::BinReader;
     let mut scope = truth::Builder::new().capture_diagnostics(true).build();
     let mut truth = scope.truth();
@@ -1454,7 +1456,7 @@ fn decompile_ast(tool: Tool, bytes: &[u8], mapfile: &str) -> Result<ast::ScriptF
         let emitter = truth.ctx().emitter;
         let mut tv = t!(truth.validate_defs());
         let mut r = BinReader::from_reader(emitter, "<input file>", std::io::Cursor::new(bytes.to_vec()));
-        let opts = truth::DecompileOptions::default();
+        let opts = truth::DecompileOptions { show_instr_offsets, ..Default::default() };
         Ok(match tool.kind {
             Kind::Anm => { let f = t!(truth::AnmFile::read_from_stream(&mut r, tool.game, false)); t!(tv.decompile_anm(tool.game, &f, &opts)) },
             Kind::Ecl => { let f = t!(truth::EclFile::read_from_stream(&mut r, tool.game)); t!(tv.decompile_ecl(tool.game, &f, &opts)) },
@@ -1537,6 +1539,35 @@ fn eval_d(c: &DCase, widths: &[usize]) -> DEval {
                     else { push_fail(&mut ev, "D-bytes-differ", w, Some(&t), first_byte_diff(&bytes, &b2)); }
                 },
                 Some(_) => ev.outcomes.push("recompiles-to-same-bytes".into()),
+            }
+        }
+    }
+    // the same binary decompiled with --show-instr-offsets (every statement carries an offset comment; labels print inline):
+    // every width must re-parse to the same script and, at 99, recompile to the same bytes
+    if let Ok(a_off) = decompile_ast_ex(tool, &bytes, &c.mapfile, true) {
+        let mut ws: Vec<usize> = vec![99];
+        ws.extend(widths.iter().copied().filter(|&w| w != 99));
+        for w in ws {
+            ev.widths_done += 1;
+            let t = match print_file(&a_off, w) { Ok(t) => t, Err(p) => { push_fail(&mut ev, "D-print-panics", w, None, format!("(--show-instr-offsets) {}", p.text)); continue; } };
+            match parse_file(&t) {
+                Err(ParseErr::Rejected(dg)) => { ev.fails.push(Fail { kind: "D-reparse-fails".into(), class: format!("{}+offsets", c.class), width: w, printed: Some(t.clone()), note: first_error_line(&dg) }); continue; },
+                Err(ParseErr::Panicked(p)) => { push_fail(&mut ev, "D-reparse-panics", w, Some(&t), p.text); continue; },
+                Ok(a2) => {
+                    ev.comparisons += 1;
+                    let (cw, _) = canon_file(&a2, true);
+                    if cw != c0 && !(c.nan && t.contains("NAN")) { ev.fails.push(Fail { kind: "D-ast-differs".into(), class: format!("{}+offsets", c.class), width: w, printed: Some(t.clone()), note: first_diff(&c0, &cw) }); continue; }
+                    ev.outcomes.push("offsets:reparsed-ast-equals-decompiler-ast".into());
+                },
+            }
+            if w == 99 && !c.foldable && !c.nan && !ev.warned {
+                let r = drive::compile(tool, t.as_bytes(), &copts);
+                ev.comparisons += 1;
+                match r.bytes {
+                    None => push_fail(&mut ev, "D-recompile-fails", w, Some(&t), format!("(--show-instr-offsets) {}", r.panic.map(|p| p.text).unwrap_or_else(|| first_error_line(&r.diag)))),
+                    Some(b2) if b2 != bytes => push_fail(&mut ev, "D-bytes-differ", w, Some(&t), format!("(--show-instr-offsets) {}", first_byte_diff(&bytes, &b2))),
+                    Some(_) => ev.outcomes.push("offsets:recompiles-to-same-bytes".into()),
+                }
             }
         }
     }
